@@ -6,6 +6,7 @@ import numpy as np
 from hypothesis import strategies as st
 
 from vlib import binarizers, gen, ops, streams, twin
+from vlib import campaign
 from vlib.runner import Result, SubCheck, Violation
 
 PROPERTY = "C17"
@@ -380,7 +381,11 @@ def evaluate(plan, ctx):
     return Result(nontrivial, sorted(ev))
 
 
-SUBCHECKS = [SubCheck("inject", strategy, evaluate, quick=3000, thorough=50000)]
+SUBCHECKS = [
+    SubCheck("inject", strategy, evaluate, quick=3000, thorough=50000),
+    # thorough tier only: coverage-guided campaign (atheris) over the same generator and oracle
+    SubCheck("atheris", strategy, evaluate, 0, 0, external=campaign.atheris_external("C17", "inject")),
+]
 KNOWN = {}
 
 MANIFEST = {
